@@ -407,12 +407,13 @@ func init() {
 	register(&explore.Prop{
 		ID: "C04", Level: levelMC, Explorer: "E1 + reachability over segment states",
 		Rule: "state space of segments reachable by New (MIX x modes, STORED-S, DV-S, empty batch, document counts 127..129, 255..257, 1024, 1025 built and merged, segments with 130/300 fields and 300-byte field names) and by merge trees to depth 2 (every MERGE(k=2) output, then each output merged alone / with drops / with everything dropped / with itself / with three fixed partners in both orders); states de-duplicated per worker by exact byte image; each state is loaded from memory (exact-capacity copy; and embedded in a larger buffer with other bytes around it) and from a file-backed io.ReaderAt and fully observed; " +
-			"states = distinct byte images per worker, transitions = build/merge operations; non-trivial = every state (degenerate shapes counted separately in counters.degenerate_states)",
+			"further depth-0 families: R0-EXTREME, R0-ALIGN (data section / file length exactly k x 4 KiB..1 MiB), R0-ZOO; the loaded segment (memory- and file-backed) is persisted again with a nil and with an open channel; HUGE-200K: 200 000 documents under a probe oracle (count; stored fields, doc values, _id postings of the first and last two documents of every stored block); states = distinct byte images per worker, transitions = build/merge operations; non-trivial = every state (degenerate shapes counted separately in counters.degenerate_states)",
 		Assumptions: commonAssumptions, Budget: qBudget, Run: runC04,
 	})
 	register(&explore.Prop{
 		ID: "C11", Level: levelMC, Explorer: "E1 + reachability over segment states",
 		Rule: "same reachable state space as C04; for each state the persisted file is checked: 44-byte footer, CRC-32/IEEE of all preceding bytes in the last 4 bytes, footer numDocs/version/chunkMode equal to the loaded segment's accessors, returned byte count (also into *bufio.Writer destinations of three sizes, empty or already holding bytes), Load(bytes).WriteTo reproduces the bytes exactly (memory- and file-backed, two load/persist rounds), and repeated WriteTo calls on one and the same segment object (built or loaded) write identical files; " +
+			"every state's built and loaded segment is also written to destinations that fill up after k bytes and then to a good one (same file), and every third WriteTo passes an open, never closed channel; " +
 			"states/transitions as C04",
 		Assumptions: commonAssumptions, Budget: qBudget, Run: runC11,
 	})
